@@ -109,6 +109,7 @@ class Node:
         self.incarnation += 1
         self.boot_time = w.h.loop.time()
         self.cl_events = {}
+        w.listener_history[(self.idx, self.incarnation)] = self.cl_events
         self.periods = {}
         self.sv_events = {si: [] for si in self.spec["offers"]}
         self.prot, self.tr = net.make_sd(w.h.loop, self.addr, timings=tm, net=w.net)
@@ -201,6 +202,7 @@ class Node:
             self.listeners[f] = L()
         self.periods[f] = self.periods.get(f, 0) + 1
         self.cl_events[(f, self.periods[f])] = []
+        self.world.reg_log[(self.idx, self.incarnation, f, self.periods[f])] = [self.world.h.loop.time(), None]
         self.watching.add(f)
         self.prot.discovery.watch_service(C.Service(*f), self.listeners[f])
 
@@ -209,6 +211,7 @@ class Node:
 
         if f in self.watching:
             self.watching.discard(f)
+            self.world.reg_log[(self.idx, self.incarnation, f, self.periods[f])][1] = self.world.h.loop.time()
             self.prot.discovery.stop_watch_service(C.Service(*f), self.listeners[f])
 
     def graceful_stop(self):
@@ -577,7 +580,56 @@ class OfferLifeMonitor(Monitor):
                             w.fail("stop-queues-%d-stopoffers" % len(stops), node, dict(service=s[:2], stopped_at=t1, stopoffers=stops[:3]))
 
 
-MONITORS = {"reboot": RebootMonitor, "wire": WireMonitor, "queue": QueueMonitor, "ack": AckMonitor, "offerlife": OfferLifeMonitor}
+class FindMonitor(Monitor):
+    """C13 in the system, on the wire: a FindService entry for a watched filter is not sent while that filter's own
+    listener has been told 'offered' for a matching service and not yet 'stopped' (same-instant changes are not judged)"""
+    name = "finds"
+
+    def finish(self):
+        w = self.w
+        for node in w.nodes:
+            for inc, tr in node.transports:
+                hist = w.listener_history.get((node.idx, inc), {})
+                for t, it, data, addr in tr.sent:
+                    try:
+                        msgs = refwire.parse_sd_datagram(data)
+                    except refwire.RefError:
+                        continue
+                    for sd in msgs:
+                        for e in sd["entries"]:
+                            if e["type"] != 0:
+                                continue
+                            w.stats["find_entries_checked"] += 1
+                            f = (e["sid"], e["iid"], e["maj"], e["val"])
+                            if addr != net.MCAST:
+                                w.fail("find-not-sent-to-the-multicast-group", node, dict(t=t, dst=addr, filter=f))
+                            if e["ttl"] != 3 or e["n1"] or e["n2"]:
+                                w.fail("find-entry-ttl-or-options-wrong", node, dict(t=t, entry=e))
+                            # the registration period of this filter that is open at t (none, or one that opened or closed
+                            # in this very instant: not judged)
+                            cur = None
+                            for (ni, ninc, ff, period), (t0, t1) in w.reg_log.items():
+                                if (ni, ninc, ff) == (node.idx, inc, f) and t0 < t - 4 * RES and (t1 is None or t1 > t + 4 * RES):
+                                    cur = period
+                            if cur is None:
+                                continue
+                            latest, recent = {}, False
+                            for te, kind, item in hist.get((f, cur), []):
+                                if te > t + 4 * RES:
+                                    break
+                                if te >= t - 4 * RES:
+                                    recent = True
+                                latest[item] = kind
+                            if recent:
+                                continue
+                            w.stats["finds_judged_against_listener_knowledge"] += 1
+                            known = [item for item, kind in latest.items() if kind == "offered"]
+                            if known:
+                                w.fail("find-sent-for-a-filter-whose-listener-says-offered", node, dict(t=t, filter=f, known=known[:3]))
+
+
+MONITORS = {"reboot": RebootMonitor, "wire": WireMonitor, "queue": QueueMonitor, "ack": AckMonitor, "offerlife": OfferLifeMonitor,
+            "finds": FindMonitor}
 
 
 # ---------------------------------------------------------------------------------------------- world
@@ -594,6 +646,8 @@ class World:
         self.incarnation_end = {}
         self.t_end = 0.0
         self.lifelog = []  # (t, node index, incarnation, what, arg)
+        self.reg_log = {}  # (node index, incarnation, filter, period) -> [watched at, unwatched at or None]
+        self.listener_history = {}  # (node index, incarnation) -> {(filter, period): [(t, kind, (service, source))]}
         self.monitors = [MONITORS[m](self) for m in want if m in MONITORS]
         self.nodes = [Node(self, i, spec) for i, spec in enumerate(layout)]
 
